@@ -1,10 +1,33 @@
 //! vcheck <ID> [--tier quick|thorough] [--seed N] [--replay FILE] [--cases N]
+//! vcheck --worker <ID> args...   (child-process scenarios; exit status is the oracle)
+#![allow(clippy::all)]
 mod engine;
 mod gen;
+mod iso;
 mod model;
+mod nqread;
 mod pat;
 mod stores;
+mod c01;
+mod c02;
+mod c03;
+mod c04;
+mod c05;
+mod c06;
+mod c07;
+mod c08;
+mod c09;
+mod c10;
 mod c11;
+mod c12;
+mod c13;
+mod c14;
+mod c15;
+mod c16;
+mod c17;
+mod c18;
+mod c19;
+mod c20;
 
 use engine::*;
 
@@ -13,6 +36,33 @@ fn main() {
     if args.is_empty() {
         eprintln!("usage: vcheck <ID> [--tier quick|thorough] [--seed N] [--replay FILE] [--cases N]");
         std::process::exit(2);
+    }
+    if args[0] == "--worker" {
+        let id = args.get(1).cloned().unwrap_or_default();
+        let code = match id.as_str() {
+            "C01" => c01::worker(&args[2..]),
+            "C02" => c02::worker(&args[2..]),
+            "C03" => c03::worker(&args[2..]),
+            "C04" => c04::worker(&args[2..]),
+            "C05" => c05::worker(&args[2..]),
+            "C06" => c06::worker(&args[2..]),
+            "C07" => c07::worker(&args[2..]),
+            "C08" => c08::worker(&args[2..]),
+            "C09" => c09::worker(&args[2..]),
+            "C10" => c10::worker(&args[2..]),
+            "C11" => c11::worker(&args[2..]),
+            "C12" => c12::worker(&args[2..]),
+            "C13" => c13::worker(&args[2..]),
+            "C14" => c14::worker(&args[2..]),
+            "C15" => c15::worker(&args[2..]),
+            "C16" => c16::worker(&args[2..]),
+            "C17" => c17::worker(&args[2..]),
+            "C18" => c18::worker(&args[2..]),
+            "C19" => c19::worker(&args[2..]),
+            "C20" => c20::worker(&args[2..]),
+            _ => 2,
+        };
+        std::process::exit(code);
     }
     let id = args[0].clone();
     let mut tier = match std::env::var("VERIF_TIER").as_deref() {
@@ -26,7 +76,6 @@ fn main() {
         .unwrap_or(20261003);
     let mut replay = None;
     let mut cases_override = None;
-    let mut rest: Vec<String> = vec![];
     let mut i = 1;
     while i < args.len() {
         match args[i].as_str() {
@@ -46,18 +95,36 @@ fn main() {
                 i += 1;
                 cases_override = args.get(i).and_then(|s| s.parse().ok());
             }
-            other => rest.push(other.to_string()),
+            _ => {}
         }
         i += 1;
     }
     let opts = Opts { tier, seed, replay, cases_override };
     let code = match id.as_str() {
-        "C11" => drive::<c11::C11>(&opts),
+        "C01" => c01::main(&opts),
+        "C02" => c02::main(&opts),
+        "C03" => c03::main(&opts),
+        "C04" => c04::main(&opts),
+        "C05" => c05::main(&opts),
+        "C06" => c06::main(&opts),
+        "C07" => c07::main(&opts),
+        "C08" => c08::main(&opts),
+        "C09" => c09::main(&opts),
+        "C10" => c10::main(&opts),
+        "C11" => c11::main(&opts),
+        "C12" => c12::main(&opts),
+        "C13" => c13::main(&opts),
+        "C14" => c14::main(&opts),
+        "C15" => c15::main(&opts),
+        "C16" => c16::main(&opts),
+        "C17" => c17::main(&opts),
+        "C18" => c18::main(&opts),
+        "C19" => c19::main(&opts),
+        "C20" => c20::main(&opts),
         other => {
             eprintln!("unknown property id {other}");
             2
         }
     };
-    let _ = rest;
     std::process::exit(code);
 }
